@@ -519,6 +519,30 @@ pub fn quiet_panics() {
     std::panic::set_hook(Box::new(|_| {}));
 }
 
+/// Like `quiet_panics`, but the FIRST panic of the process is reported on stderr as one line
+/// `@@FIRST-PANIC <message>` — so that a parent can still attribute a child that aborted on a
+/// follow-up panic (panic while unwinding, panic in a no-unwind context).
+pub fn quiet_panics_keep_first() {
+    static SEEN: std::sync::atomic::AtomicBool = std::sync::atomic::AtomicBool::new(false);
+    std::panic::set_hook(Box::new(|info| {
+        if !SEEN.swap(true, Ordering::SeqCst) {
+            let msg = if let Some(s) = info.payload().downcast_ref::<&str>() {
+                (*s).to_string()
+            } else if let Some(s) = info.payload().downcast_ref::<String>() {
+                s.clone()
+            } else {
+                "<non-string panic payload>".to_string()
+            };
+            eprintln!("@@FIRST-PANIC {}", msg.replace('\n', " "));
+        }
+    }));
+}
+
+/// The message of a child's first panic, if it reported one (see `quiet_panics_keep_first`).
+pub fn first_panic_of(stderr: &str) -> Option<String> {
+    stderr.lines().find_map(|l| l.strip_prefix("@@FIRST-PANIC ")).map(str::to_string)
+}
+
 /// Extract a readable message from a caught panic payload.
 pub fn panic_message(p: &(dyn std::any::Any + Send)) -> String {
     if let Some(s) = p.downcast_ref::<&str>() {
